@@ -11,7 +11,6 @@ import (
 
 	"gtverif/gen"
 	"gtverif/model"
-	"gtverif/mon"
 )
 
 // BranchTuples are the branch-string tuples of the workloads.
@@ -172,9 +171,11 @@ func Guard(fn func() error) (o Outcome) {
 func OutputMD(doc string, opts ...gtree.Option) Outcome {
 	// a mutex-protected writer: after a massive call returned with an error, pipeline goroutines
 	// may still be writing for a moment; reading a bytes.Buffer then would be the harness's race
-	w := mon.NewRecWriter()
-	o := Guard(func() error { return gtree.OutputFromMarkdown(w, strings.NewReader(doc), opts...) })
-	o.Out = w.Bytes()
+	// (the reader's and the writer's concrete kind rotate, see ioshape.go)
+	Poison(doc, opts...)
+	w, got := OutWriter()
+	o := Guard(func() error { return gtree.OutputFromMarkdown(w, MDReader(doc), opts...) })
+	o.Out = got()
 	return o
 }
 
